@@ -734,3 +734,24 @@ impl core::fmt::Debug for BitBoard {
         }
     }
 }
+
+#[cfg(cozy_chess_verif)]
+impl BitBoardIter {
+    /// Verification hook: the squares not yet yielded.
+    pub fn verif_raw(&self) -> BitBoard {
+        self.0
+    }
+}
+
+#[cfg(cozy_chess_verif)]
+impl BitBoardSubsetIter {
+    /// Verification hook: assemble an iterator from raw field values.
+    pub fn verif_from_raw(set: BitBoard, subset: BitBoard, finished: bool) -> Self {
+        Self { set, subset, finished }
+    }
+
+    /// Verification hook: the raw field values.
+    pub fn verif_raw(&self) -> (BitBoard, BitBoard, bool) {
+        (self.set, self.subset, self.finished)
+    }
+}
